@@ -149,8 +149,67 @@ def make_integrate_job(method, noise, adaptive):
     return Job(f'integrate-{method}-{noise}-{"adaptive" if adaptive else "fixed"}', fn)
 
 
+def job_logqp_diagonal(E, rep, tier):
+    """logqp=True with diagonal noise: the drift of the log-ratio column, 0.5 |(f - h) / g|^2, is computed through misc.stable_division.  Its real
+    body is executed *inside its guard* (|g_i| > 1e-7, the assumption recorded for C18): the comparison is taken to hold, so torch.where selects
+    the denominator itself -- with whatever autograd history the code leaves on it.  Obligation: faithful backprop == ideal differentiation for
+    the value and its first-order dependence on the parameter and on y."""
+    from pyvc import jets
+    rep.under_contract('torchsde._core.base_sde.SDELogqp.f_diagonal', 'torchsde._core.base_sde.SDELogqp.f_and_g_diagonal', 'torchsde._core.misc.stable_division')
+    B, d = 1, 2
+    res = []
+    saved_cmp, saved_abs, saved_sign, saved_div = XT._cmp, XT.m_abs, XT.m_sign, XT.__truediv__
+
+    def series_div(self, o):
+        """a / b for b = b0 + n with b0 free of perturbation variables (a monomial) and n nilpotent at the truncation order:
+        a / b = a / b0 * sum_k (-n / b0)^k  (exact in the truncated algebra)."""
+        if not isinstance(o, XT):
+            return saved_div(self, o)
+        aa, bb = np.broadcast_arrays(self.a, o.a)
+        out = np.empty(aa.shape, dtype=object)
+        L = poly.LIMITS.get('eta', 1)
+        for idx in np.ndindex(*aa.shape):
+            b_ = Poly.lift(bb[idx])
+            b0 = el_detach(b_)
+            n_ = b_ - b0
+            inv = Poly.const(1) / b0
+            acc, term = Poly.const(1), Poly.const(1)
+            for _k in range(L):
+                term = term * (n_ * inv) * (-1)
+                acc = acc + term
+            out[idx] = Poly.lift(aa[idx]) * inv * acc
+        return self._new(out, o)
+    try:
+        XT.__truediv__ = series_div
+        XT._cmp = lambda self, o, f: XT(np.full(np.broadcast(self.a, tensor.as_array(o)).shape, True, dtype=object))     # inside the guard
+        XT.m_abs = lambda self: self._new(np.vectorize(lambda e: Poly.var('absb'), otypes=[object])(self.a))
+        XT.m_sign = lambda self: self._new(np.vectorize(lambda e: Poly.var('sgnb'), otypes=[object])(self.a))
+        for transparent in (False, True):
+            S = build(E, 'diagonal', 'ito', B, d, d, 'none', True, transparent, eta_limit=1)
+            hfun = jets.DynJetFunction('Hh', d, (d,), params=S.params)
+            user = H.make_user_sde('diagonal', 'ito', {'f': S.f, 'g': S.g, 'h': hfun})
+            cls = E.module('torchsde._core.base_sde').globals['SDELogqp']
+            lq = E.instantiate(cls, [user], {}, S.cx, 0)
+            l0 = XT(H.sym_array('l0', (B, 1)))
+            yaug = XT(np.concatenate([S.y0.a, l0.a], axis=1), rg=True, leaf=False)
+            yaug.eta = None
+            f1 = E.call(E.get_attr(lq, 'f', S.cx, 0), [S.t0, yaug], {}, S.cx, 0)
+            f2, g2 = E.call(E.get_attr(lq, 'f_and_g', S.cx, 0), [S.t0, yaug], {}, S.cx, 0)
+            res.append((f1, f2, S.leaves))
+            tensor.STATE['transparent'] = False
+    finally:
+        XT._cmp, XT.m_abs, XT.m_sign, XT.__truediv__ = saved_cmp, saved_abs, saved_sign, saved_div
+        tensor.STATE['transparent'] = False
+    names = ['theta'] + [f'y0[{i}]' for i in range(B * d)]
+    tag = 'C08/SDELogqp[diagonal]'
+    rep.bounded.append({'what': tag, 'bound': f'dimension-bounded B={B}, d={d}; stable_division inside its guard'})
+    compare(rep, f'{tag}/f.log-ratio-drift', res[0][0], res[1][0], res[0][2], names)
+    compare(rep, f'{tag}/f_and_g.log-ratio-drift', res[0][1], res[1][1], res[0][2], names)
+
+
 def jobs(tier):
     out = [make_step_job(m, n, o) for (m, n, o) in CONFIGS]
+    out.append(Job('logqp-diagonal', job_logqp_diagonal))
     for method, noise in (('euler', 'diagonal'), ('midpoint', 'general'), ('reversible_heun', 'diagonal')):
         out.append(make_integrate_job(method, noise, False))
         if method != 'midpoint':
